@@ -78,7 +78,15 @@ def generate_definitions(depth, work):
 ILLEGAL = re.compile(r"Illegal State Machine|caused the exception|does not exist|object has no attribute|is not subscriptable|KeyError|TypeError|AttributeError")
 
 
-def engine_side(definition=None, poison=None, poison_for_started=False):
+def has_map(d):
+    if isinstance(d, dict):
+        return d.get("Type") == "Map" or any(has_map(v) for v in d.values())
+    if isinstance(d, list):
+        return any(has_map(v) for v in d)
+    return False
+
+
+def engine_side(definition=None, poison=None, poison_for_started=False, inp=None):
     """run one case beside a healthy execution; returns the engine-side observation fields"""
     machines = [{"name": "ok", "type": "STANDARD", "asl": HEALTHY}]
     scn = {"id": "c18", "machines": machines, "starts": [], "workers": ["hf", "f"], "oracle": {}, "world": {}}
@@ -95,7 +103,7 @@ def engine_side(definition=None, poison=None, poison_for_started=False):
     try:
         w.start_raw(sm_arn("ok"), {"h": 1}, name="h1")
         if definition is not None and stored:
-            w.start_raw(sm_arn("sm"), {"x": 1}, name="m1")
+            w.start_raw(sm_arn("sm"), {"x": 1} if inp is None else inp, name="m1")
         if poison is not None:
             w.rec.begin_frame("api", inst="", action="poison")
             w.worker_publish(next(iter(w.shared_queues)), None, poison)
@@ -152,7 +160,7 @@ def run(tier_name=None, replay=None):
         rp = json.load(open(replay))
         c = rp["case"]
         if c["kind"] == "def":
-            o = dict(engine_side(definition=c["definition"]), id=1, kind="def", wf=False, lint=lint_side(sl, c["definition"]))
+            o = dict(engine_side(definition=c["definition"], inp=c.get("input")), id=1, kind="def", wf=False, lint=lint_side(sl, c["definition"]))
         else:
             o = dict(engine_side(poison=c["body"].encode("latin1")), id=1, kind="event", wf=False, lint={"raised": False, "problems": 0, "cls": ""})
         fails, stats = judge.run_judge("JudgeC18", [o], os.path.join(RUN, "C18-replay"))
@@ -179,6 +187,12 @@ def run(tier_name=None, replay=None):
         o = dict(engine_side(definition=d), id=n, kind="def", wf=wf, lint=lint_side(sl, d))
         obs.append(o)
         meta[n] = {"kind": "def", "definition": d}
+        if has_map(d):
+            # a Map iterates over a list: run it on one too, so that the states of its item processor are entered
+            n += 1
+            o = dict(engine_side(definition=d, inp=[{"x": 1}, {"x": 2}]), id=n, kind="def", wf=wf, lint=lint_side(sl, d))
+            obs.append(o)
+            meta[n] = {"kind": "def", "definition": d, "input": [{"x": 1}, {"x": 2}]}
     # arbitrary JSON values as definitions
     for d in [5, "x", [1], True, None, {}, {"StartAt": 1}, {"States": {}}, {"StartAt": "A", "States": []}, {"StartAt": "A", "States": {"A": 5}},
               {"StartAt": "A", "States": {"A": {"Type": ["Pass"], "End": True}}}, {"StartAt": "A", "States": {"A": {"Type": "Pass", "End": "yes"}}},
